@@ -520,6 +520,8 @@ class MarkdownNormalizer(Renderer):
         # A Setext heading may span several lines but an ATX heading cannot,
         # so soft line breaks become spaces.
         children_content = re.sub(r"(?<!\\)\n", " ", children_content)
+        # Runs of spaces are collapsed, as in wrapped paragraph text.
+        children_content = re.sub(r"[^\S\n]+", " ", children_content).strip()
         # A trailing run of `#` would be read as the closing sequence of an ATX heading.
         children_content = re.sub(r"(?:^|(?<=\s))(#+)$", r"\\\1", children_content)
         self._in_heading = False
@@ -748,7 +750,9 @@ class MarkdownNormalizer(Renderer):
 
     def render_table_cell(self, element: gfm_elements.TableCell) -> str:
         """Render a cell within a GFM table row."""
-        return self.render_children(element).replace("|", "\\|")
+        # Runs of spaces are collapsed, as in wrapped paragraph text.
+        content = re.sub(r"[^\S\n]+", " ", self.render_children(element)).strip()
+        return content.replace("|", "\\|")
 
     def render_url(self, element: gfm_elements.Url) -> str:
         """For GFM autolink URLs, just output the URL text as written (e.g. `www.example.com`)."""
